@@ -10,7 +10,7 @@ from __future__ import annotations
 import ast
 import string
 
-from .core import norm, walk_no_nested
+from .core import norm, ordkey, walk_no_nested
 
 
 def _targets(t):
@@ -58,7 +58,7 @@ def text_structure(fn, e, depth=0, follow=True):
             return text_structure(fn, inits[0].value, depth + 1)
         if len(inits) == 1 and augs:
             out = text_structure(fn, inits[0].value, depth + 1)
-            for a in sorted(augs, key=lambda s: (s.lineno, s.col_offset)):
+            for a in sorted(augs, key=ordkey):
                 inner = text_structure(fn, a.value, depth + 1)
                 lp = _loop_of(a, fn)
                 if lp is not None:
@@ -80,7 +80,7 @@ def text_structure(fn, e, depth=0, follow=True):
                 g = defs[0].value
             elif len(defs) == 1 and isinstance(defs[0].value, ast.List) and not defs[0].value.elts and apps:
                 out = []
-                for i, a in enumerate(sorted(apps, key=lambda s: (s.lineno, s.col_offset))):
+                for i, a in enumerate(sorted(apps, key=ordkey)):
                     inner = text_structure(fn, a.args[0], depth + 1)
                     lp = _loop_of(a, fn)
                     if lp is not None:
